@@ -131,6 +131,26 @@ class NumpyShim(types.ModuleType):
             return x**y
         return _np.power(x, y, *a, **kw)
 
+    def abs(self, x, *a, **kw):
+        """|x| as an uninterpreted atom abs(x) for symbolic entries (no fork on the sign)."""
+        from .sym import uf
+
+        def one(v):
+            if isinstance(v, R) and not v.is_const:
+                return uf("abs", v)
+            return abs(v)
+
+        if isinstance(x, R):
+            return one(x)
+        if isinstance(x, _np.ndarray) and x.dtype == object:
+            out = _np.empty(x.shape, dtype=object)
+            for idx in _np.ndindex(*x.shape):
+                out[idx] = one(x[idx])
+            return out
+        return _np.abs(x, *a, **kw)
+
+    absolute = abs
+
     def isclose(self, a, b, *args, **kw):
         if isinstance(a, R) or isinstance(b, R):
             # code under analysis uses isclose only as an equality-with-slack guard;
